@@ -275,10 +275,8 @@ theorem optb (x : Option Bool) : (x == some true) = x.getD false := by
   | none => rfl
   | some b => cases b <;> rfl
 
-/-- objectDefineOwnProperty = §8.12.9 for every descriptor that is not generic on an existing property
-    (the generic case is C07's `generic_loses_writable` finding). -/
-theorem objectDefineOwnProperty_refines (E : Env) (k : Key) (d : Desc) (throw : Bool) (o : Obj)
-    (hng : d.v.isSome = true ∨ d.w.isSome = true ∨ lookup k o.props = none) :
+/-- objectDefineOwnProperty = §8.12.9 for every property state and every data or generic descriptor -/
+theorem objectDefineOwnProperty_refines (E : Env) (k : Key) (d : Desc) (throw : Bool) (o : Obj) :
     objectDefineOwnProperty E k d throw o = Spec.defineOwnDefault E k d throw o := by
   obtain ⟨dv, dw, de, dc⟩ := d
   unfold objectDefineOwnProperty Spec.defineOwnDefault
@@ -287,11 +285,9 @@ theorem objectDefineOwnProperty_refines (E : Env) (k : Key) (d : Desc) (throw : 
     simp only [reject, optb]
   | some p =>
     obtain ⟨pv, pw, pe, pc⟩ := p
-    simp only [hl] at hng
     simp only [reject, Desc.isEmpty, Desc.isGeneric, Desc.isData, sameValue_eq]
-    cases dv <;> cases dw <;> simp at hng <;>
+    cases dv <;> cases dw <;>
       cases de <;> cases dc <;> cases pw <;> cases pe <;> cases pc <;> cases throw <;> simp
-
 
 /-- objectDelete = §8.12.7 [[Delete]] -/
 theorem objectDelete_refines (k : Key) (throw : Bool) : objectDelete k throw = Spec.delete k throw := by
@@ -388,7 +384,7 @@ theorem shrinkLoop_refines (E : Env) (newLength : Nat) (d : Desc) (nw throw : Bo
       | false =>
         simp only [Bool.not_false, if_true]
         have hd : ∀ d' : Desc, d'.v.isSome = true → objectDefineOwnProperty E .length d' false = Spec.defineOwnDefault E .length d' false :=
-          fun d' h => funext fun s' => objectDefineOwnProperty_refines E .length d' false s' (Or.inl h)
+          fun d' _ => funext fun s' => objectDefineOwnProperty_refines E .length d' false s'
         cases nw <;> simp only [Bool.not_false, Bool.not_true, if_true, if_false, Bool.false_eq_true] <;>
           rw [hd _ rfl] <;> simp only [M.bind] <;>
           (cases Spec.defineOwnDefault E .length _ false s <;> cases throw <;> simp [reject, M.throw, pure, M.pure])
@@ -478,11 +474,9 @@ theorem sameValue_refl (E : Env) (v : Val) : sameValue E v v = true := by
 /-- a successful objectDefineOwnProperty is idempotent: defining the same (data) descriptor again on the result
     succeeds and changes nothing -/
 theorem odp_idem (E : Env) (k : Key) (d : Desc) (t0 t : Bool) (o o1 : Obj)
-    (hng : d.v.isSome = true ∨ d.w.isSome = true)
     (h : objectDefineOwnProperty E k d t0 o = .ok true o1) :
     objectDefineOwnProperty E k d t o1 = .ok true o1 := by
   obtain ⟨dv, dw, de, dc⟩ := d
-  simp only at hng
   unfold objectDefineOwnProperty at h
   cases hl : lookup k o.props with
   | none =>
@@ -494,14 +488,14 @@ theorem odp_idem (E : Env) (k : Key) (d : Desc) (t0 t : Bool) (o o1 : Obj)
       subst h
       unfold objectDefineOwnProperty
       simp only [lookup_write_self, Desc.isEmpty, Desc.isGeneric, Desc.isData, write_write]
-      cases dv <;> cases dw <;> simp at hng <;> cases de <;> cases dc <;> simp [sameValue_refl]
+      cases dv <;> cases dw <;> cases de <;> cases dc <;> simp [sameValue_refl]
       all_goals (intros; simp_all)
     · simp [he, reject] at h; cases t0 <;> simp at h
   | some p =>
     obtain ⟨pv, pw, pe, pc⟩ := p
     rw [hl] at h
     simp only [Desc.isEmpty, Desc.isGeneric, Desc.isData, reject] at h
-    rcases dv with _ | v <;> rcases dw with _ | (_ | _) <;> simp at hng <;> rcases de with _ | (_ | _) <;>
+    rcases dv with _ | v <;> rcases dw with _ | (_ | _) <;> rcases de with _ | (_ | _) <;>
       rcases dc with _ | (_ | _) <;> cases pw <;> cases pe <;> cases pc <;> cases t0 <;> simp at h
     all_goals (try (split at h <;> simp at h))
     all_goals (first | (obtain ⟨_, _, rfl⟩ := h) | (obtain ⟨_, rfl⟩ := h) | (obtain rfl := h))
@@ -511,16 +505,15 @@ theorem odp_idem (E : Env) (k : Key) (d : Desc) (t0 t : Bool) (o o1 : Obj)
 
 theorem obj_eta (o : Obj) : ({ o with props := o.props } : Obj) = o := by cases o; rfl
 
-theorem odp_eq (E : Env) (k : Key) (d : Desc) (t : Bool) (h : d.v.isSome = true ∨ d.w.isSome = true) :
+theorem odp_eq (E : Env) (k : Key) (d : Desc) (t : Bool) :
     objectDefineOwnProperty E k d t = Spec.defineOwnDefault E k d t := by
   funext s
-  exact objectDefineOwnProperty_refines E k d t s (by rcases h with h | h; exact Or.inl h; exact Or.inr (Or.inl h))
+  exact objectDefineOwnProperty_refines E k d t s
 
 theorem oldLen_eq (o : Obj) : Spec.oldLen o = arrLength o := rfl
 
 /-- the index branch: arrayDefineOwnProperty on a canonical index = §15.4.5.1 step 4 -/
-theorem defineIndex_refines (E : Env) (m : Nat) (d : Desc) (t : Bool) (o : Obj) (hwf : WFArr o)
-    (hng : d.v.isSome = true ∨ d.w.isSome = true) :
+theorem defineIndex_refines (E : Env) (m : Nat) (d : Desc) (t : Bool) (o : Obj) (hwf : WFArr o) :
     arrayDefineIndex E (.idx m) d t m o = Spec.arrayDefineIdx E (.idx m) d t m o := by
   obtain ⟨ha, n, w, hl, hn, hb⟩ := hwf
   have hlp : (lookup Key.length o.props).getD ⟨.int 0, false, false, false⟩ = ⟨.int (n : Nat), w, false, false⟩ := by
@@ -528,7 +521,7 @@ theorem defineIndex_refines (E : Env) (m : Nat) (d : Desc) (t : Bool) (o : Obj) 
   simp only [arrayDefineIndex, Spec.arrayDefineIdx, oldLen_eq, arrLength_of o n w hl, lengthWritable_of o n w hl, hlp, reject]
   by_cases hrej : m ≥ n ∧ w = false
   · simp only [hrej, and_self, if_true]
-  · simp only [hrej, if_false, bind, M.bind, odp_eq E (.idx m) d false hng]
+  · simp only [hrej, if_false, bind, M.bind, odp_eq E (.idx m) d false]
     cases hr : Spec.defineOwnDefault E (.idx m) d false o with
     | err e s => rfl
     | ok b s =>
@@ -538,10 +531,10 @@ theorem defineIndex_refines (E : Env) (m : Nat) (d : Desc) (t : Bool) (o : Obj) 
         simp only [Bool.not_true, Bool.false_eq_true, if_false]
         by_cases hge : m ≥ n
         · simp only [hge, if_true]
-          rw [odp_eq E .length _ false (Or.inl rfl)]
+          rw [odp_eq E .length _ false]
         · simp only [hge, if_false]
-          rw [← odp_eq E (.idx m) d false hng] at hr
-          rw [odp_idem E (.idx m) d false t o s hng hr]
+          rw [← odp_eq E (.idx m) d false] at hr
+          rw [odp_idem E (.idx m) d false t o s hr]
           rfl
 
 
@@ -549,7 +542,7 @@ theorem defineIndex_refines (E : Env) (m : Nat) (d : Desc) (t : Bool) (o : Obj) 
 theorem odp_length_wfalse (E : Env) (o : Obj) (N : Nat) (hl : LenProp o N true) :
     Spec.defineOwnDefault E .length { w := some false } false o
       = .ok true { o with props := write .length ⟨.int N, false, false, false⟩ o.props } := by
-  rw [← odp_eq E .length { w := some false } false (Or.inr rfl)]
+  rw [← odp_eq E .length { w := some false } false]
   simp only [LenProp] at hl
   simp [objectDefineOwnProperty, hl, Desc.isEmpty, Desc.isGeneric, Desc.isData]
 
@@ -590,7 +583,7 @@ theorem shrinkTail_refines (E : Env) (N : Nat) (D : Desc) (t : Bool) (cnt : Nat)
         have h1 := odp_length_ok E o2 N N { D with w := some false } false hl2 hv' hc
         rw [h1]
         simp only []
-        rw [odp_idem E .length { D with w := some false } false t o2 _ (Or.inl (by rw [hv']; rfl)) h1]
+        rw [odp_idem E .length { D with w := some false } false t o2 _ h1]
         rw [odp_length_wfalse E o2 N hl2]
         rfl
 
@@ -603,7 +596,7 @@ theorem setLength_refines (E : Env) (d : Desc) (t : Bool) (N : Nat) (o : Obj) (h
   simp only [arraySetLength, Spec.arraySetLen, oldLen_eq, arrLength_of o n w hl, lengthWritable_of o n w hl, hlp, reject]
   by_cases hge : N ≥ n
   · simp only [hge, if_true]
-    rw [odp_eq E .length _ t (Or.inl rfl)]
+    rw [odp_eq E .length _ t]
   · simp only [hge, if_false]
     -- the chain define; tail on a writable length with N < n
     have chain : ∀ (D : Desc) (nw : Bool), D.v = some (.int N) → D.w ≠ some false → w = true →
@@ -613,7 +606,7 @@ theorem setLength_refines (E : Env) (d : Desc) (t : Bool) (N : Nat) (o : Obj) (h
                if !succeeded then pure false else Spec.truncateTail E N D nw t (n - N)) : M Obj Bool) o := by
       intro D nw hDv hDw hw
       subst hw
-      simp only [bind, M.bind, ← odp_eq E .length D t (Or.inl (by rw [hDv]; rfl))]
+      simp only [bind, M.bind, ← odp_eq E .length D t]
       by_cases hc : Cok D
       · rw [odp_length_ok E o n N D t hl hDv hc]
         simp only [Bool.not_true, Bool.false_eq_true, if_false]
@@ -653,7 +646,7 @@ def KeyOK : Key → Prop
 /-- **arrayDefineOwnProperty = §15.4.5.1** on a well-formed array, for every key, every data descriptor with
     optional fields, either throw flag. -/
 theorem arrayDefineOwnProperty_refines (E : Env) (k : Key) (d : Desc) (t : Bool) (o : Obj) (hwf : WFArr o)
-    (hk : KeyOK k) (hng : d.v.isSome = true ∨ d.w.isSome = true) :
+    (hk : KeyOK k) :
     arrayDefineOwnProperty E k d t o = Spec.arrayDefineOwn E k d t o := by
   unfold arrayDefineOwnProperty Spec.arrayDefineOwn
   by_cases hkl : k = .length
@@ -662,8 +655,7 @@ theorem arrayDefineOwnProperty_refines (E : Env) (k : Key) (d : Desc) (t : Bool)
     cases hv : d.v with
     | none =>
       simp only
-      have : d.w.isSome = true := by rcases hng with h | h; rw [hv] at h; cases h; exact h
-      rw [odp_eq E .length d t (Or.inr this)]
+      rw [odp_eq E .length d t]
     | some nv =>
       simp only [← length_range]
       cases hu : arrayUint32 E nv with
@@ -680,23 +672,23 @@ theorem arrayDefineOwnProperty_refines (E : Env) (k : Key) (d : Desc) (t : Bool)
       by_cases hm : m < 2^32 - 1
       · have h0 : ((m : Nat) : Int) ≥ 0 := by omega
         simp only [hm, if_true, h0, Int.toNat_natCast]
-        exact defineIndex_refines E m d t o hwf hng
+        exact defineIndex_refines E m d t o hwf
       · simp only [hm, if_false]
         have : ¬ ((-1 : Int) ≥ 0) := by omega
         simp only [this, if_false]
-        rw [odp_eq E _ d t hng]
+        rw [odp_eq E _ d t]
     | name s =>
       have h2 : Spec.arrayIndex? s = none := hk
       have : ¬ (stringToArrayIndex (.name s) ≥ 0) := by
         simp only [stringToArrayIndex, Key.toBytes, array_index_eq, h2]; omega
       simp only [this, if_false, Key.toBytes, h2]
-      rw [odp_eq E _ d t hng]
+      rw [odp_eq E _ d t]
 
 /-- hence §15.4.5.1 itself keeps the length invariant (transfer through the refinement) -/
 theorem wf_specArrayDefine (E : Env) (k : Key) (d : Desc) (t : Bool) (o : Obj) (hwf : WFArr o)
-    (hk : KeyOK k) (hng : d.v.isSome = true ∨ d.w.isSome = true) :
+    (hk : KeyOK k) :
     WFArr (stateOf (Spec.arrayDefineOwn E k d t o)) := by
-  rw [← arrayDefineOwnProperty_refines E k d t o hwf hk hng]
+  rw [← arrayDefineOwnProperty_refines E k d t o hwf hk]
   exact wf_arrayDefine E o k d t hwf
 
 /-! ## objectPut = §8.12.5, histories -/
@@ -728,7 +720,7 @@ theorem truncateLoop_irrel (E : Env) (N : Nat) (v : Val) (t : Bool) (cnt : Nat) 
       simp only [LenProp]; rw [lookup_erase_ne _ _ _ (by intro e; cases e)]; exact hl
     · rw [h1]
       simp only [Bool.not_false, if_true, Bool.not_true, Bool.false_eq_true, if_false]
-      rw [← odp_eq E .length _ false (Or.inl rfl), ← odp_eq E .length _ false (Or.inl rfl)]
+      rw [← odp_eq E .length _ false, ← odp_eq E .length _ false]
       simp only [M.bind]
       rw [odp_length_ok E o1 N (N + c + 1) ⟨some (.int ((N + c + 1 : Nat) : Int)), some true, some false, some false⟩ false hl rfl ⟨by simp, by simp⟩,
           odp_length_ok E o1 N (N + c + 1) { v := some (.int ((N + c + 1 : Nat) : Int)) } false hl rfl ⟨by simp, by simp⟩]
@@ -762,7 +754,7 @@ theorem specDefine_full_vo (E : Env) (k : Key) (v : Val) (t : Bool) (o : Obj) (p
         have e1 : (!decide ((some true : Option Bool) = some false)) = true := by decide
         have e2 : (!decide ((none : Option Bool) = some false)) = true := by decide
         simp only [e1, e2, if_true, bind, M.bind, hfv]
-        rw [← odp_eq E .length { v := some (.int N) } t (Or.inl rfl),
+        rw [← odp_eq E .length { v := some (.int N) } t,
             odp_length_ok E o n N { v := some (.int N) } t hlen rfl ⟨by simp, by simp⟩]
         simp only [Option.getD_none, Bool.not_true, Bool.false_eq_true, if_false, Spec.truncateTail, bind, M.bind]
         rw [truncateLoop_irrel E N (.int N) t (n - N) _ (by simp [LenProp, lookup_write_self])]
@@ -784,7 +776,7 @@ theorem objectPut_refines (E : Env) (k : Key) (v : Val) (t : Bool) (o : Obj) (hw
     | false => simp
     | true =>
       simp only [Bool.not_true, Bool.false_eq_true, if_false]
-      rw [arrayDefineOwnProperty_refines E k _ t o hwf hk (Or.inl rfl)]
+      rw [arrayDefineOwnProperty_refines E k _ t o hwf hk]
       rw [specDefine_full_vo E k v t o p hwf hl hw]
   | none =>
     cases hp : protoLookup k o with
@@ -794,14 +786,14 @@ theorem objectPut_refines (E : Env) (k : Key) (v : Val) (t : Bool) (o : Obj) (hw
       | false => simp
       | true =>
         simp only [Bool.not_true, Bool.false_eq_true, if_false]
-        rw [arrayDefineOwnProperty_refines E k _ t o hwf hk (Or.inl rfl)]
+        rw [arrayDefineOwnProperty_refines E k _ t o hwf hk]
     | some pv =>
       simp only
       cases he : o.ext with
       | false => simp
       | true =>
         simp only [Bool.not_true, Bool.false_eq_true, if_false]
-        rw [arrayDefineOwnProperty_refines E k _ t o hwf hk (Or.inl rfl)]
+        rw [arrayDefineOwnProperty_refines E k _ t o hwf hk]
 
 
 /-! ### histories: model = specification -/
@@ -816,10 +808,9 @@ def specRunHist (E : Env) : List HOp → Obj → Obj
   | [], o => o
   | op :: ops, o => specRunHist E ops (op.specRun E o)
 
-/-- the side conditions of a step: keys respect the representation invariant and descriptors are data
-    descriptors (generic descriptors on existing properties are C07's subject) -/
+/-- the side condition of a step: keys respect the representation invariant -/
 def StepOK : HOp → Prop
-  | .define k d _ => KeyOK k ∧ (d.v.isSome = true ∨ d.w.isSome = true)
+  | .define k _ _ => KeyOK k
   | .put k _ _ => KeyOK k
   | .delete _ _ => True
 
@@ -829,17 +820,16 @@ theorem step_refines (E : Env) (op : HOp) (o : Obj) (hwf : WFArr o) (hok : StepO
     op.run E o = op.specRun E o := by
   cases op with
   | define k d t =>
-    obtain ⟨h1, h2⟩ := hok
     simp only [HOp.run, HOp.specRun, defineOwnProperty, Spec.defineOwn, hwf.arr, if_true]
-    rw [arrayDefineOwnProperty_refines E k d t o hwf h1 h2]
+    rw [arrayDefineOwnProperty_refines E k d t o hwf hok]
   | put k v t =>
     simp only [HOp.run, HOp.specRun]
     rw [objectPut_refines E k v t o hwf hok]
   | delete k t =>
     simp only [HOp.run, HOp.specRun, objectDelete_refines]
 
-/-- **history_refines**: every finite history of [[DefineOwnProperty]] / [[Put]] / [[Delete]] on an array (data
-    descriptors, any key) leaves exactly the object that ES5 prescribes — and that object satisfies the length
+/-- **history_refines**: every finite history of [[DefineOwnProperty]] / [[Put]] / [[Delete]] on an array (any
+    descriptor, any key) leaves exactly the object that ES5 prescribes — and that object satisfies the length
     invariant. -/
 theorem history_refines (E : Env) (ops : List HOp) (o : Obj) (hwf : WFArr o) (hok : HistOK ops) :
     runHist E ops o = specRunHist E ops o ∧ WFArr (specRunHist E ops o) := by
@@ -1381,7 +1371,7 @@ example : HistOK
   rcases hop with h | h | h | h | h <;> subst h
   · trivial
   · show Spec.arrayIndex? [48, 51] = none; decide
-  · exact ⟨trivial, Or.inl rfl⟩
+  · trivial
   · trivial
   · trivial
 
